@@ -2,7 +2,7 @@
 import struct
 
 from sim.world import World
-from sim.tape import Policy, make_rng
+from sim.tape import Tape, Policy, make_rng
 from sim import wire
 from sim.ids import ids_for
 from sim.sched import DONE
@@ -20,7 +20,70 @@ def filler(tag, size):
     return bytes(((tag * 7 + i * 13) ^ (i >> 3)) & 0xFF for i in range(size))
 
 
-def scenario_for(seed, index, tier):
+DIRECTED = {'quick': 3, 'thorough': 12}      # small scenarios swept
+_directed_cache = {}
+
+
+def small_scenario(seed, k):
+    """Two writers, one or two packets each, one disconnect."""
+    rng = make_rng('directed', ID, seed, k)
+    sc = scenario_for(seed, 10**9 + k, 'quick', _random_only=True)
+    tag = [1]
+
+    def ops(n):
+        out = []
+        for _ in range(n):
+            out.append([rng.choice(['q', 'f']), tag[0],
+                        rng.choice([0, 17, 300])])
+            tag[0] += 1
+        return out
+    sc['threads'] = [ops(rng.choice([1, 2])), ops(rng.choice([1, 2]))]
+    sc['disc'] = {'by': rng.choice(['coord', 0, 1]),
+                  'immediate': rng.random() < 0.3}
+    sc['sched'] = {'granularity': 'line', 'max_steps': 400000}
+    sc['server']['conns'][0]['play'] = [['ka', 5]] if k % 2 else []
+    sc['net'] = {'latency_us': 200}
+    return sc
+
+
+def directed_plan(seed, tier):
+    """Every placement of ONE forced context switch (to every other
+    runnable thread / the pending event) in each small scenario: exhaustive
+    for pre-emption bound 1."""
+    key = (seed, tier)
+    if key in _directed_cache:
+        return _directed_cache[key]
+    cases = []
+    for k in range(DIRECTED[tier]):
+        sc = small_scenario(seed, k)
+        tape = Tape(replay=[])
+        execute(sc, tape)
+        for pos in range(tape.pos):
+            for v in (1, 2, 3):
+                cases.append((k, pos, v))
+    _directed_cache[key] = cases
+    return cases
+
+
+def total(tier, seed):
+    return len(directed_plan(seed, tier)) + RUNS[tier]
+
+
+def tape_for(scenario, seed, index):
+    if 'directed' in scenario:
+        return Tape(replay=scenario['directed'])
+    return None
+
+
+def scenario_for(seed, index, tier, _random_only=False):
+    if not _random_only:
+        plan = directed_plan(seed, tier)
+        if index < len(plan):
+            k, pos, v = plan[index]
+            sc = small_scenario(seed, k)
+            sc['directed'] = [[pos, v]]
+            sc['directed_of'] = k
+            return sc
     rng = make_rng('scenario', ID, seed, index)
     sup = common.supported()
     proto = common.pick_proto(rng, sup)
@@ -347,9 +410,13 @@ def evidence(tier, seed, m, d):
     import sys
     return common.base_evidence(
         sys.modules[__name__], tier, seed, m, d,
-        rule='each run = seeded scenario (1-4 writer threads x queued/forced '
+        rule='first part: every placement of one forced context switch '
+             '(pre-emption bound 1, to each other runnable thread) at every '
+             'choice point of %d small two-writer scenarios at line '
+             'granularity (exhaustive for that bound); then: '
+             'each run = seeded scenario (1-4 writer threads x queued/forced '
              'writes x final disconnect, framing mode, protocol) + seeded '
              'schedule tape; evaluations = oracle obligations checked; a run '
              'is non-trivial when at least one pre-emption fired; distinct = '
              'distinct run digests (hash of every scheduler step and I/O '
-             'event)')
+             'event)' % DIRECTED[tier])
